@@ -30,7 +30,7 @@ PURE = [
 ] + [
     P + "check_subquery", P + "modify_ast", C + "Cache.update", C + "Cache.from_ast", C + "Cache.requires_subquery", C + "Cache.selected_cols", C + "transfer_col_references",
     T + "Table.__getitem__", T + "Table.__getattr__", T + "Table.__iter__", T + "Table.__contains__", T + "Table.__len__", T + "Table.__dir__", T + "Table.__repr__", T + "get_head_tail",
-    E + "ColExpr.map_subtree", E + "ColExpr.map", E + "ColExpr.export", E + "wrap_literals", E + "clean_kwargs", E + "get_expr_as_table", E + "Order.from_col_expr", E + "Order.map_subtree",
+    E + "WhenClause.then", E + "CaseExpr.when", E + "CaseExpr.otherwise", E + "ColExpr.cast", E + "ColExpr.map_subtree", E + "ColExpr.map", E + "ColExpr.export", E + "wrap_literals", E + "clean_kwargs", E + "get_expr_as_table", E + "Order.from_col_expr", E + "Order.map_subtree",
     TV + "Verb._clone", TV + "Alias._clone", TV + "Mutate._clone", TV + "Summarize._clone", TV + "Join._clone", TV + "Union._clone",
     BP + "PolarsImpl._clone", BP + "PolarsImpl.export", BP + "rename_overwritten_cols", BP + "merge_desc_nulls_last", BP + "compile_order",
     BS + "SqlImpl._clone", BS + "SqlImpl.compile_query", BS + "SqlImpl.compile_order", BS + "SqlImpl.compile_lit", BS + "dedup_order_by", BS + "SqlImpl.build_query",
